@@ -11,7 +11,7 @@ META = dict(
     level_note='task-level schedules; plus, in the *-race jobs, one pre-emption by another thread (a response, a timer, a queued task or a connection failure) at any lock acquire/release reached while the running thread holds no lock; pool conditions are set up on real HostConnection objects (shutdown(), in_flight at capacity, transport raising); transport/timers/executor faked',
     technique='symbolic execution (sx proxies) of the real ResponseFuture host-selection path over solver-enumerated pool-state vectors and event orders + z3 validity per path',
     bounds=dict(quick='plans of 1..4 hosts x 5 pool conditions per host; afterwards <= 3 events with responses {rows, unavailable -> policy oracle {NEXT, RETHROW}}; explicit-host target with 2 conditions',
-                thorough='same plans, <= 5 events, all four retry decisions'),
+                thorough='same plans, <= 5 events, all four retry decisions; plan-3-race2: 3 events + 2 pre-emptions'),
     assumptions=['race jobs: a timer (client-side timeout, speculative execution) may fire on a thread other than the event loop\'s, so it can overlap the handling of a response - Connection.create_timer does not promise otherwise and the driver itself guards _on_timeout with the connection lock; with the bundled reactors timers run on the event-loop thread, for which these schedules are an over-approximation; two responses are never handled at the same time', 'the load-balancing plan is finite and fixed for the execution'],
     stubs=['transport/timers/executor: harness kit', 'codec: identity', 'retry policy: decision oracle'],
     outside=['plans that change while the request runs'],
@@ -23,7 +23,7 @@ def encoded_functions():
     return [R.send_request, R._query, R._make_query_plan, R._retry_task, R._handle_retry_decision]
 
 
-def h_plan(V, hosts=3, steps=3, decisions=(NEXT, RETHROW), target=False, race=False):
+def h_plan(V, hosts=3, steps=3, decisions=(NEXT, RETHROW), target=False, race=False, budget=1):
     run = Run(V, n_hosts=hosts, pool_states=rfhist.POOL_STATES, responses=('rows', 'unavailable'), decisions=decisions,
               levels=(None,), allow_defunct=False, max_policy_calls=3, host_target=target)
     rf = run.rf
@@ -45,7 +45,7 @@ def h_plan(V, hosts=3, steps=3, decisions=(NEXT, RETHROW), target=False, race=Fa
         V.check(world.hosts[i] in rf._errors, 'skipped-host-recorded-with-reason', note='host %d (%s)' % (i, states[i]))
     if race:
         # from here on another thread may deliver a response / run a queued retry at any lock acquire or release
-        rfhist.arm_race(V, run)
+        rfhist.arm_race(V, run, budget)
     for i in range(steps):
         if run.step('ev%d' % i) is None:
             break
@@ -110,6 +110,8 @@ def jobs(tier):
     js = [Job('target', 'h_plan', dict(hosts=2, steps=2, target=True, decisions=dec), o), Job('retry-unusable', 'h_retry_unusable', {}, o)]
     for n in (1, 2, 3):
         js.append(Job('plan-%d' % n, 'h_plan', dict(hosts=n, steps=5 if th else 3, decisions=dec), o))
+    if th:
+        js.append(Job('plan-3-race2', 'h_plan', dict(hosts=3, steps=3, decisions=(NEXT, RETHROW, RETRY), race=True, budget=2), o))
     js.append(Job('plan-3-race', 'h_plan', dict(hosts=3, steps=4 if th else 3, decisions=(NEXT, RETHROW, RETRY), race=True), o))
     for p0 in range(5):
         js.append(Job('plan-4-p%d' % p0, 'h_plan', dict(hosts=4, steps=5 if th else 3, decisions=dec), dict(o, pin={'pool0': p0})))
